@@ -71,8 +71,8 @@ theorem resolve_step_call (m : M) (c i : Nat) (rest : List Act) (h : m.stack = .
   rw [h]
   simp only [M.core] at hr hst ⊢
   simp only [hr, hk, h0, hst]
-  cases ret <;> simp [M.setCore, fulfilAndWalk, thenOn_log, calls_append, calls]
-  all_goals (try (unfold thenOn; simp only []; split <;> simp [calls_append, calls]))
+  cases ret <;> simp [M.setCore, fulfilAndWalk, thenOn_log, calls_append, calls, St.val]
+  all_goals (try (unfold thenOn; simp only []; split <;> simp [calls_append, calls, St.val]))
 
 theorem resolve_step_guard (m : M) (c i : Nat) (rest : List Act) (h : m.stack = .resolveReq c i :: rest)
     (r : Req) (hr : (m.core c).reqs[i]? = some r) (h1 : 1 ≤ r.rc) :
